@@ -179,6 +179,11 @@ def check(pid, tier, regen=False):
         if clause not in mine:
             continue
         n_mine += 1
+        if ev.get("k") == "strw":
+            R.add_violation({"property": pid, "clause": clause, "operation": ev["op"], "string": ev["sa"], "pattern": ev["sb"],
+                             "index_width": ev["iw"], "start": ev["start"], "folded_width": ev["lenf"],
+                             "declared_width": ev["lend"]})
+            continue
         s = C.sig([ev["w"], ev["how"], clause])
         new_exact.add(s)
         fid = classify(pid, ev, clause, exact)
